@@ -107,6 +107,12 @@ Conforms(vocab, T, node) ==
   /\ \A i \in Idx(kv) : rkr(i).ok /\ bound(i) # 0 /\ IsKeyKind(ch[bound(i)])
   \* every value converts under its declared datatype
   /\ \A i \in Idx(kv) : ConvOf(ch[bound(i)].dt, kv[i][2]).ok
+  \* ... and so does every schema default that stands in for a key the text does not give
+  /\ \A c \in Idx(ch) : (IsKeyKind(ch[c]) /\ Lines(c) = {}) =>
+        \A j \in Idx(ch[c].dflt) :
+           IF ch[c].name # "+" THEN ConvOf(ch[c].dt, ch[c].dflt[j]).ok
+           ELSE IF ch[c].kind = "key" THEN ConvOf(ch[c].dt, ch[c].dflt[j][2]).ok
+           ELSE \A q \in Idx(ch[c].dflt[j][2]) : ConvOf(ch[c].dt, ch[c].dflt[j][2][q]).ok
   \* no single-valued key is filled twice
   /\ \A c \in Idx(ch) : (ch[c].kind = "key" /\ ch[c].name # "+") => Cardinality(Lines(c)) <= 1
   /\ \A c \in Idx(ch) : (ch[c].kind = "key" /\ ch[c].name = "+") =>
